@@ -948,7 +948,7 @@ fn check(cx: &Cx, site: &'static str) {
     });
     // `--check-every K` (Miri lanes only, where one read costs ~30 ms): look at every K-th
     // program point of each thread so that more programs fit into the lane
-    if cx.check_every > 1 && rot % cx.check_every != 0 {
+    if cx.check_every > 1 && rot % cx.check_every != 0 && site != "thread-end" {
         return;
     }
     for (i, inst) in cx.insts.iter().enumerate() {
@@ -1052,7 +1052,11 @@ fn run_thread<R>(cx: &Cx, name: &'static str, f: impl FnOnce() -> R) -> R {
             *t.counters.entry("monitor-model-out-of-step").or_insert(0) += 1;
         }
     });
-    check_all_handles(cx, "thread-end");
+    if cx.check_every == 1 || name == "main" {
+        check_all_handles(cx, "thread-end");
+    } else {
+        check(cx, "thread-end");
+    }
     r
 }
 
